@@ -579,16 +579,32 @@ func checkTreeHandedOver(r *Run, prog *Program, a *Anchors, pfx string) {
 			}
 			n++
 			okArg := false
-			if ld, isLoad := c.Call.Args[0].(*ssa.UnOp); isLoad {
+			nodeArg, datumArg := c.Call.Args[0], ssa.Value(nil)
+			if len(c.Call.Args) > 1 {
+				datumArg = c.Call.Args[1]
+			}
+			if nP, dP, _ := evalParams(a.Dispatch); nP != nil && dP != nil {
+				for i, q := range a.Dispatch.Params {
+					if i < len(c.Call.Args) {
+						if q == nP {
+							nodeArg = c.Call.Args[i]
+						}
+						if q == dP {
+							datumArg = c.Call.Args[i]
+						}
+					}
+				}
+			}
+			if ld, isLoad := nodeArg.(*ssa.UnOp); isLoad {
 				if fa, isFA := ld.X.(*ssa.FieldAddr); isFA && fieldName(fa.X.Type(), fa.Field) == astField {
 					if _, isParam := fa.X.(*ssa.Parameter); isParam {
 						okArg = true
 					}
 				}
 			}
-			okDatum := len(c.Call.Args) > 1 && len(a.EvaluateM.Params) > 1 && c.Call.Args[1] == ssa.Value(a.EvaluateM.Params[1])
+			okDatum := datumArg != nil && len(a.EvaluateM.Params) > 1 && datumArg == ssa.Value(a.EvaluateM.Params[1])
 			r.Check(pfx+".tree-handover", "Evaluate:dispatch-args", prog.pos(c.Pos()), okArg && okDatum,
-				"Evaluate must hand the receiver's syntax tree and its own datum parameter to the dispatcher; node argument: "+describeRoot(prog, c.Call.Args[0]))
+				"Evaluate must hand the receiver's syntax tree and its own datum parameter to the dispatcher; node argument: "+describeRoot(prog, nodeArg))
 		}
 	}
 	r.Check(pfx+".tree-handover", "Evaluate:dispatch-calls", prog.pos(a.EvaluateM.Pos()), n == 1, fmt.Sprintf("Evaluate calls the dispatcher %d times (expected once)", n))
